@@ -328,23 +328,33 @@ func evalC12(c c12Case, rec *hx.Rec) error {
 	rec.Eval(1)
 	rec.Sample(c)
 	raceBefore := raceLogSize() // a race between the internal worker goroutines of ONE call counts as well
-	// sequential reference run: every call alone, under the default scheduler setting (GOMAXPROCS = NumCPU); the concurrent
-	// run below uses this process's GOMAXPROCS value (1, 2, 4, 16 ... set by the driver), so the comparison also shows a
-	// result that depends on GOMAXPROCS
+	// Half of the plans run their concurrent phase FIRST, on whatever lazily initialised or memoised state the process
+	// has at that moment, and the sequential "alone" reference afterwards: a reference computed first would warm such
+	// state and hide a first-use race.
+	concFirst := hx.Hash64(fmt.Sprint(c.Plan))%2 == 0
 	gmp := runtime.GOMAXPROCS(0)
-	runtime.GOMAXPROCS(runtime.NumCPU())
 	defer runtime.GOMAXPROCS(gmp)
 	want := make([][][]byte, len(c.Plan))
-	for g, seq := range c.Plan {
-		for _, call := range seq {
-			var o []byte
-			if perr := hx.Try(func() { o = c12Call(call) }); perr != nil {
-				return fmt.Errorf("sequential run of %s: %w", call.Op, perr)
+	runSeq := func() error {
+		runtime.GOMAXPROCS(runtime.NumCPU()) // alone, under the default scheduler setting
+		c12SharedPW = nil
+		for g, seq := range c.Plan {
+			for _, call := range seq {
+				var o []byte
+				if perr := hx.Try(func() { o = c12Call(call) }); perr != nil {
+					return fmt.Errorf("sequential run of %s: %w", call.Op, perr)
+				}
+				want[g] = append(want[g], o)
 			}
-			want[g] = append(want[g], o)
+		}
+		return nil
+	}
+	if !concFirst {
+		if err := runSeq(); err != nil {
+			return err
 		}
 	}
-	runtime.GOMAXPROCS(gmp)
+	runtime.GOMAXPROCS(gmp) // the concurrent phase uses this process's GOMAXPROCS value (1, 2, 4, 16 ... set by the driver)
 	c12SharedPW = ipa.NewPrecomputedWeights()
 	defer func() { c12SharedPW = nil }()
 	got := make([][][]byte, len(c.Plan))
@@ -379,6 +389,12 @@ func evalC12(c c12Case, rec *hx.Rec) error {
 	if perr != nil {
 		return perr
 	}
+	if concFirst {
+		if err := runSeq(); err != nil {
+			return err
+		}
+		rec.Label("concurrent_phase_first")
+	}
 	for g := range c.Plan {
 		if errs[g] != nil {
 			return errs[g]
@@ -386,13 +402,13 @@ func evalC12(c c12Case, rec *hx.Rec) error {
 		for i := range c.Plan[g] {
 			if !bytes.Equal(got[g][i], want[g][i]) {
 				return fmt.Errorf("goroutine %d call %d (%s) returned different bytes when run concurrently with %d other goroutines (GOMAXPROCS=%d) than when run alone",
-					g, i, c.Plan[g][i].Op, len(c.Plan)-1, runtime.GOMAXPROCS(0))
+					g, i, c.Plan[g][i].Op, len(c.Plan)-1, gmp)
 			}
 		}
 	}
 	time.Sleep(10 * time.Millisecond)
 	if raceLogSize() != raceBefore {
-		return fmt.Errorf("the race detector reported a data race while the plan ran (GOMAXPROCS=%d):\n%s", runtime.GOMAXPROCS(0), raceLogText())
+		return fmt.Errorf("the race detector reported a data race while the plan ran (GOMAXPROCS=%d):\n%s", gmp, raceLogText())
 	}
 	heavy := 0
 	for _, seq := range c.Plan {
@@ -403,9 +419,9 @@ func evalC12(c c12Case, rec *hx.Rec) error {
 			}
 		}
 	}
-	rec.Label(fmt.Sprintf("gomaxprocs=%d", runtime.GOMAXPROCS(0)))
+	rec.Label(fmt.Sprintf("gomaxprocs=%d", gmp))
 	if len(c.Plan) >= 2 && heavy >= 2 {
-		rec.NT(fmt.Sprint(c), runtime.GOMAXPROCS(0))
+		rec.NT(fmt.Sprint(c), gmp)
 		rec.SampleNT(c)
 	}
 	return nil
